@@ -599,7 +599,7 @@ impl<'a> ExpandedSelection<'a> {
 
             // If we only have an `on` field, turn the struct into the enum
             // of the variants.
-            if fields.peek().is_none() {
+            if fields.peek().is_none() && !on_variants.is_empty() {
                 let item = quote! {
                     #response_derives
                     #[serde(crate = #serde_path, tag = "__typename")]
